@@ -44,7 +44,7 @@ Grammar.  Module level of tseytin.py (closed world: anything else is refused): d
                    function that are never rebound, the dispatch dict, closures defined earlier, themselves.
                    A local of a closure may not shadow any name of the outer function.
   <stmt> ::= pass | nonlocal <n> | <docstring>
-           | <x>[: T] = <expr> | <x>, <y> = <expr>, <expr> | <n> += <int> | <n> -= <int>
+           | <x>[: T] = <expr> | <x>: list[int] = [] | <x>, <y> = <expr>, <expr> | <n> += <int> | <n> -= <int>
            | <d>[<label>] = <int>                                            (store into the defaultdict)
            | <f>.append(<ints>) | <fresh local list>.append(<elem>)
            | <dispatch>[<gtype>](<f>, <int>, <ints>)
@@ -923,7 +923,10 @@ class Translator:
             return ['(* the dispatch dict: template_of (Generated/Tseytin.v, translator T2) *)'] + cont(env)
         if name in env and env[name].kind == 'closure':
             fail(s, 'assignment to the name of a closure')
-        v = self.expr(val, env, pre)
+        if isinstance(val, ast.List) and not val.elts and ann is not None and self.ann_type(ann) in ('ilist', 'labels'):
+            v = V('[]', self.ann_type(ann), True)       # `<x>: list[int] = []`: the annotation types the empty list
+        else:
+            v = self.expr(val, env, pre)
         if ann is not None:
             at = self.ann_type(ann)
             if at is not None and at != v.ty and not (at == 'int' and v.ty == 'nat'):
